@@ -249,8 +249,13 @@ impl DateFilter for ds::YearRange {
                 curr_year + 1
             } else {
                 // 5. time is in the range but doesn't match the step
-                let round_up = |x: u16, d: u16| d * x.div_ceil(d); // get the first multiple of `d` greater than `x`.
-                range.start() + round_up(curr_year - range.start(), self.step)
+                let round_up = |x: u32, d: u32| d * x.div_ceil(d); // get the first multiple of `d` greater than `x`.
+
+                let next_year = u32::from(*range.start())
+                    + round_up((curr_year - range.start()).into(), self.step.into());
+
+                // The result may exceed `u16` for big steps
+                next_year.try_into().unwrap_or(u16::MAX)
             }
         };
 
